@@ -39,6 +39,12 @@ PINNED = [
      "items": [{"kind": "type", "lex": "type T2 ( a ) { type ( inner : a : }".split(" "), "name": "T2", "victim": True},
                {"kind": "fn", "lex": "fn f4 ( r ) { use v <- try ( r ) # ( v , fn ( q ) { q } ) }".split(" "), "name": "f4", "victim": False},
                {"kind": "import", "lex": "import k as j".split(" "), "name": "k", "victim": False}]},
+    # F48
+    {"edits": [{"k": "ins", "p": 6, "x": "fn"}, {"k": "rep", "p": 14, "x": ">="}], "items": [{"kind": "type", "lex": ["pub", "opaque", "type", "T3", "(", "a", ",", "b", ")", "{", "D3", "(", "f", ":", "fn", "(", "a", ")", "->", "b", ",", "g", ":", "#", "(", "a", ",", "m", ".", "X", "(", "b", ")", ")", ")", "E3", "}"], "name": "T3", "victim": False}, {"kind": "fn", "lex": ["fn", "f1", "(", "x", ",", "y", ")", "{", "let", "z", "=", "x", "+", "y", "z", "}"], "name": "f1", "victim": False}, {"kind": "type", "lex": ["pub", "type", "T1", "{", "A1", "B1", "fn", "(", "Int", ",", "l", ":", "String", ">=", "}"], "name": "T1", "victim": True}]},
+    # F48
+    {"edits": [{"k": "del", "p": 17, "x": ")"}, {"k": "rep", "p": 6, "x": "fn"}], "items": [{"kind": "fn", "lex": ["fn", "f7", "(", "t", ")", "{", "let", "#", "(", "a", ",", "b", ")", "=", "t", "case", "t", "{", "#", "(", "1", ",", "[", "h", ",", "..", "r", "]", ")", "->", "h", "T", "(", "l", ":", "v", ",", "..", ")", "as", "w", "->", "v", "}", "}"], "name": "f7", "victim": False}, {"kind": "alias", "lex": ["type", "A2", "(", "a", ")", "=", "fn", "(", "a", ",", "m", ".", "T", ")", "->", "#", "(", "a", ",", "List", "(", "a", ")", ")"], "name": "A2", "victim": False}, {"kind": "fn", "lex": ["fn", "f3", "(", ")", "{", "fn", "(", "1", ",", "l", ":", "[", "2", ",", "3", "]", "|>", "h", "}"], "name": "f3", "victim": True}]},
+    # F48
+    {"edits": [{"k": "rep", "p": 12, "x": "|>"}, {"k": "ins", "p": 7, "x": "fn"}], "items": [{"kind": "import", "lex": ["import", "m/n", ".", "{", "x", ",", "type", "Y", "}"], "name": "m/n", "victim": False}, {"kind": "type", "lex": ["type", "T2", "(", "a", ")", "{", "C2", "fn", "(", "inner", ":", "a", "|>", "}"], "name": "T2", "victim": True}, {"kind": "type", "lex": ["pub", "type", "T1", "{", "A1", "B1", "(", "Int", ",", "l", ":", "String", ")", "}"], "name": "T1", "victim": False}]},
 ]
 
 FOLLOWERS = {"f1", "f2", "T1", "T2", "c1", "c2", "k", "A1", "f5"}   # every way the next definition can start
